@@ -154,6 +154,9 @@ func (e *Exec) fmtArg(v Value, verb byte, flags string) (Value, bool) {
 		return x, true
 	case *Term:
 		if !x.IsConst() {
+			if x.W > 0 && (verb == 'd' || verb == 'v') && (flags == "" || flags == "+") && e.spec == 0 {
+				return e.fmtDecimal(x, isSigned(iv.t), flags == "+"), true
+			}
 			return StrV("?"), false
 		}
 		var gv interface{}
@@ -626,16 +629,12 @@ func init() {
 		return BV(64, uint64(int64(strings.IndexByte(mustStr(args[0], "IndexByte"), byte(c.V)))))
 	}
 	intrinsics["strconv.Atoi"] = func(e *Exec, args []Value, st string) Value {
-		n, err := strconv.Atoi(mustStr(args[0], "Atoi"))
-		if err != nil {
-			return TupleV{BV(64, 0), e.newError(StrV(err.Error()))}
-		}
-		return TupleV{BV(64, uint64(int64(n))), errNil()}
+		return e.atoiSym(args[0])
 	}
 	intrinsics["strconv.Itoa"] = func(e *Exec, args []Value, st string) Value {
 		n := args[0].(*Term)
 		if !n.IsConst() {
-			unsup("Itoa symbolic")
+			return e.fmtDecimal(n, true, false)
 		}
 		return StrV(strconv.Itoa(int(sext(n.V, 64))))
 	}
@@ -654,7 +653,10 @@ func init() {
 		intrinsics["unicode."+name] = func(e *Exec, args []Value, st string) Value {
 			r := args[0].(*Term)
 			if !r.IsConst() {
-				r = BV(32, e.concretize(r))
+				r = e.subst(r)
+			}
+			if !r.IsConst() {
+				return e.runeClassTerm(name, f, r)
 			}
 			return Bool(f(rune(sext(r.V, 32))))
 		}
